@@ -184,6 +184,28 @@ class Program:
             self._index_defs(mi)
         for ci in self.classes.values():
             ci.bases = [self.resolve_expr_name(ci.module, b) or norm(b) for b in ci.node.bases]
+        # normalisation: absorb helpers that are new w.r.t. the reference function table (see core/inline.py)
+        self.inlined: List[Tuple[str, str]] = []
+        if not os.environ.get("VERIF_NO_INLINE"):
+            from .inline import Inliner, load_known
+
+            known = load_known()
+            if known is not None:
+                inl = Inliner(self, known)
+                inl.run()
+                self.inlined = inl.log
+
+    def _reindex(self) -> None:
+        self.functions.clear()
+        self.classes.clear()
+        for mi in self.modules.values():
+            mi.functions.clear()
+            mi.classes.clear()
+            ast.fix_missing_locations(mi.tree)
+            set_parents(mi.tree)
+            self._index_defs(mi)
+        for ci in self.classes.values():
+            ci.bases = [self.resolve_expr_name(ci.module, b) or norm(b) for b in ci.node.bases]
 
     def _index_imports(self, mi: ModuleInfo) -> None:
         for node in ast.walk(mi.tree):
